@@ -45,6 +45,7 @@ fn install_panic_hook() {
         } else {
             String::from("?")
         };
+        eprintln!("nsverif limits: panic at {loc}: {msg}");
         LAST_PANIC.with(|m| *m.borrow_mut() = format!("{loc} {msg}"));
     }));
 }
@@ -304,7 +305,29 @@ fn run_once<'a>(
     facts: &ProgramFacts<'a, 'a>,
     plan: Option<&OptimizationPlan<'a>>,
 ) -> String {
-    let mut runtime = Runtime::new(arena, Some(frame));
+    // Everything one run allocates in the persistent arena (pools, environments, output) is
+    // released again afterwards, so the three configurations see the same free space the
+    // single run of the CLI sees.
+    let mark = arena.offset();
+    let line = run_once_inner(arena, frame, root, facts, plan);
+    unsafe {
+        arena.reset(mark);
+        frame.reset(0);
+    }
+    line
+}
+
+fn run_once_inner<'a>(
+    arena: &'a Arena,
+    frame: &'a Arena,
+    root: BlockRef<'a>,
+    facts: &ProgramFacts<'a, 'a>,
+    plan: Option<&OptimizationPlan<'a>>,
+) -> String {
+    let mut runtime = match panic::catch_unwind(AssertUnwindSafe(|| Runtime::new(arena, Some(frame)))) {
+        Ok(r) => r,
+        Err(_) => return format!("{{\"end\":{},\"n\":0,\"h\":\"\",\"head\":[],\"tail\":[]}}", jstr(&format!("panic:{}", last_panic()))),
+    };
     let res = panic::catch_unwind(AssertUnwindSafe(|| {
         runtime.run_with_analysis(root, facts, plan);
     }));
